@@ -62,6 +62,21 @@ def diff(spec, real):
     return out
 
 
+def requeues_several(prev, last):
+    """Does this step re-queue two or more jobs of one connection?  The order in which the code does
+    that (insertion order of running_jobs) is not fixed by the property; TLC's simulation uses that
+    order too, but a different, equally valid order must not be reported - such a step is skipped
+    here (trace validation, which accepts every order, still judges it)."""
+    if prev is None:
+        return False
+    w = last.get("w")
+    if last.get("op") not in ("disconnect", "deliver") or w not in prev["running"]:
+        return False
+    live = [s for s in prev["running"][w] if not prev["jobs"][s - 1]["done"]]
+    box = prev["waiters"][w]["box"]
+    return len(live) + (1 if box else 0) >= 2
+
+
 def to_op(last):
     op = dict(last)
     k = op["op"]
@@ -122,11 +137,15 @@ def replay_one(hist, workers=None, clients=None, channels=None, after_step=None,
                     return {"step": steps_done, "problem": "server raised", "errors": d.errors}
                 if len(evs) != len(ops):
                     return {"machinery": "batch of %d ops produced %d events" % (len(ops), len(evs))}
+                pv = hist[i - len(ops) - 1]["st"] if i - len(ops) - 1 >= 0 else None
                 for h, e in zip(ops, evs):
                     df = diff(h["st"], e["post"])
                     if df:
+                        if requeues_several(pv, h["last"]):
+                            return {"ok": True, "steps": steps_done, "skipped": "requeue order"}
                         return {"step": steps_done, "op": h["last"], "differs": df, "spec": norm_spec_state(h["st"]),
                                 "real": norm_real_state(e["post"])}
+                    pv = h["st"]
                     if h["last"]["op"] == "pull" and h["last"]["got"] != e.get("got"):
                         return {"step": steps_done, "op": h["last"], "differs": ["pull result"], "real_got": e.get("got")}
                     steps_done += 1
@@ -171,6 +190,7 @@ def replay_one(hist, workers=None, clients=None, channels=None, after_step=None,
             k = 0
             for h in delivers:
                 lk, lw = h["last"]["k"], h["last"]["w"]
+                pprev = prev
                 if lk == "value":
                     pw = prev["waiters"][lw]
                     silent = (not pw["on"]) or pw["box"] == 0 or \
@@ -192,6 +212,8 @@ def replay_one(hist, workers=None, clients=None, channels=None, after_step=None,
                             "real_event": {x: y for x, y in e.items() if x != "post"}}
                 df = diff(h["st"], e["post"])
                 if df:
+                    if requeues_several(pprev, h["last"]):
+                        return {"ok": True, "steps": steps_done, "skipped": "requeue order"}
                     return {"step": steps_done, "op": h["last"], "differs": df, "spec": norm_spec_state(h["st"]),
                             "real": norm_real_state(e["post"])}
                 steps_done += 1
@@ -261,6 +283,8 @@ def replay_behaviours(ctx, prop, quick):
         if r.get("ok"):
             agreed += 1
             steps += r["steps"]
+            if r.get("skipped"):
+                ctx.cover(replay_cut_short_at_free_requeue_order=1)
             continue
         op = r.get("op", {})
         key = "qs replay differs: op=%s fields=%s" % (op.get("op"), ",".join(r.get("differs", [r.get("problem", "?")])))
